@@ -145,7 +145,12 @@ def run(chk, replay=None):
         j = c["job"]
         chk.violation(sig, f"{c['kind']} while handing a well-formed element to the parsers/client: {c['report'] or c['stderr_tail'][-300:]} "
                            f"(job {j.get('id')}, seed #{j.get('seed')}, steps {[st['op'] for st in j.get('steps', [])]})", [j])
-    chk.cov["distinct_findings"] = len(seen) + len(crashes)
+    # 6. no dependence on uninitialised memory: the seeds once more with another heap fill pattern
+    det = cc.determinism(chk, "c02det", [j for j in jobs if j["k"] == "seed"], seeds_path, lines) if not replay else []
+    for dv in det:
+        chk.violation(f"C02:uninitialised:{dv['cls']}", dv["what"] + " (a member is read before it is initialised)", [job_by_id[dv["case"]]])
+    chk.cov["determinism_reruns"] = sum(1 for j in jobs if j["k"] == "seed") if not replay else 0
+    chk.cov["distinct_findings"] = len(seen) + len(crashes) + len({dv["cls"] for dv in det})
     chk.assumptions += [
         "elements up to a size bound: seeds from the test suite, <= 3 mutations, attribute values <= 70000 characters, nesting <= 24 extra levels per Nest, document <= 300000 characters",
         "Qt's own XML reader/writer and DOM are trusted; a sanitizer report without a frame in /repo/src is still reported",
